@@ -1,6 +1,7 @@
 package main
 
 import (
+	"bytes"
 	"crypto/sha256"
 	"encoding/hex"
 	"fmt"
@@ -21,7 +22,8 @@ type Val struct {
 
 const (
 	guardLen  = 8
-	spareLen  = 8
+	spareLen  = 8    // layouts 0 and 1
+	roomyLen  = 8192 // layout 2 (and own arrays in layouts 3, 4): more room than anything a call could append
 	spareByte = 0xA5
 	guardByte = 0x5A
 )
@@ -90,10 +92,19 @@ type Buf struct {
 	arr    []byte
 	n      int
 	layout int
+	spare  int
 }
 
+// Layouts: 0 = slice capped right behind 8 spare bytes (arr[off:off+n:off+n+8]); 1 = the whole rest of a
+// small array is capacity; 2 = 8 KiB of sentinel-filled spare capacity, un-clipped (an append of any
+// size this driver uses fits and therefore lands in the caller's memory instead of reallocating);
+// 3 / 4 = all inputs of one call adjacent in ONE frame, in call order / in reverse order (see Frame).
 func newBuf(content []byte, layout int) *Buf {
 	n := len(content)
+	spareLen := spareLen
+	if layout >= 2 {
+		spareLen = roomyLen
+	}
 	arr := make([]byte, guardLen+n+spareLen+guardLen)
 	for i := range arr {
 		arr[i] = guardByte
@@ -102,23 +113,23 @@ func newBuf(content []byte, layout int) *Buf {
 	for i := guardLen + n; i < guardLen+n+spareLen; i++ {
 		arr[i] = spareByte
 	}
-	return &Buf{arr: arr, n: n, layout: layout}
+	return &Buf{arr: arr, n: n, layout: layout, spare: spareLen}
 }
 
 func (b *Buf) Slice() []byte {
 	if b.layout == 0 {
-		return b.arr[guardLen : guardLen+b.n : guardLen+b.n+spareLen]
+		return b.arr[guardLen : guardLen+b.n : guardLen+b.n+b.spare]
 	}
 	return b.arr[guardLen : guardLen+b.n]
 }
 
 func (b *Buf) Val() Val {
-	g := append(append([]byte{}, b.arr[:guardLen]...), b.arr[guardLen+b.n+spareLen:]...)
-	return Val{D: enc(b.arr[guardLen : guardLen+b.n]), S: enc(b.arr[guardLen+b.n : guardLen+b.n+spareLen]), G: enc(g)}
+	g := append(append([]byte{}, b.arr[:guardLen]...), b.arr[guardLen+b.n+b.spare:]...)
+	return Val{D: enc(b.arr[guardLen : guardLen+b.n]), S: enc(b.arr[guardLen+b.n : guardLen+b.n+b.spare]), G: enc(g)}
 }
 
 func (b *Buf) Scribble(count int) bool {
-	return scribbleBytes(b.arr[guardLen:guardLen+b.n:guardLen+b.n+spareLen], count)
+	return scribbleBytes(b.arr[guardLen:guardLen+b.n:guardLen+b.n+b.spare], count)
 }
 
 func (b *Buf) Ranges() [][2]uintptr {
@@ -236,13 +247,13 @@ func (r *Msg) Val() Val {
 	}
 	for _, b := range r.bufs {
 		guard = append(guard, b.arr[:guardLen]...)
-		guard = append(guard, b.arr[guardLen+b.n+spareLen:]...)
+		guard = append(guard, b.arr[guardLen+b.n+b.spare:]...)
 	}
 	// for re-homed inputs the spare bytes are those of the arrays, whatever the library did to the field
 	if len(r.bufs) > 0 {
 		spare = spare[:0]
 		for _, b := range r.bufs {
-			spare = append(spare, b.arr[guardLen+b.n:guardLen+b.n+spareLen]...)
+			spare = append(spare, b.arr[guardLen+b.n:guardLen+b.n+b.spare]...)
 		}
 		ser = append(ser, '#')
 		for _, b := range r.bufs {
@@ -319,10 +330,144 @@ func (f FillBuf) Val() Val {
 }
 
 func (f FillBuf) Scribble(count int) bool {
-	return scribbleBytes(f.arr[guardLen+f.n:guardLen+f.n:guardLen+f.n+spareLen], count)
+	return scribbleBytes(f.arr[guardLen+f.n:guardLen+f.n:guardLen+f.n+f.spare], count)
 }
 
 func (f FillBuf) Ranges() [][2]uintptr {
 	lo := uintptr(unsafe.Pointer(unsafe.SliceData(f.arr)))
 	return [][2]uintptr{{lo, lo + guardLen}, {lo + guardLen + uintptr(f.n), lo + uintptr(len(f.arr))}}
+}
+
+// ---------------------------------------------------------------- inputs adjacent in one frame
+
+// Frame holds all byte-slice inputs of ONE call next to each other, as a caller does that cuts the
+// arguments out of one message buffer: [64 sentinel bytes | input | input | ... | sentinel rest], slices
+// un-clipped.  forward: in the order the call receives them (an append to the first argument runs over
+// the second); reverse: the other way round.  The inputs are AdjBuf regions (their bytes only); everything
+// else of the frame is one FrameRest region that must stay sentinel.
+const (
+	frameLen   = 40 << 10
+	frameHead  = 64
+	frameStart = 24 << 10 // reverse frames grow downwards from here
+)
+
+type Frame struct {
+	arr     []byte
+	reverse bool
+	pos     int
+	carved  [][2]int
+}
+
+func newFrame(reverse bool) *Frame {
+	f := &Frame{arr: make([]byte, frameLen), reverse: reverse, pos: frameHead}
+	for i := range f.arr {
+		f.arr[i] = spareByte
+	}
+	if reverse {
+		f.pos = frameStart
+	}
+	return f
+}
+
+func (f *Frame) carve(content []byte) *AdjBuf {
+	n := len(content)
+	var off int
+	if f.reverse {
+		f.pos -= n
+		off = f.pos
+	} else {
+		off = f.pos
+		f.pos += n
+	}
+	if off < frameHead || off+n > frameStart {
+		panic("c19: inputs of one call exceed the frame")
+	}
+	copy(f.arr[off:], content)
+	f.carved = append(f.carved, [2]int{off, off + n})
+	return &AdjBuf{f: f, off: off, n: n}
+}
+
+// sorted: the non-empty inputs by position.
+func (f *Frame) sorted() [][2]int {
+	var cs [][2]int
+	for _, c := range f.carved {
+		if c[1] > c[0] {
+			cs = append(cs, c)
+		}
+	}
+	sort.Slice(cs, func(i, j int) bool { return cs[i][0] < cs[j][0] })
+	return cs
+}
+
+type AdjBuf struct {
+	f      *Frame
+	off, n int
+}
+
+func (a *AdjBuf) Slice() []byte { return a.f.arr[a.off : a.off+a.n] }
+func (a *AdjBuf) Val() Val      { return Val{D: enc(a.f.arr[a.off : a.off+a.n])} }
+func (a *AdjBuf) Scribble(count int) bool {
+	return scribbleBytes(a.f.arr[a.off:a.off+a.n:a.off+a.n], count)
+}
+func (a *AdjBuf) Ranges() [][2]uintptr {
+	if a.n == 0 {
+		return nil
+	}
+	lo := uintptr(unsafe.Pointer(unsafe.SliceData(a.f.arr))) + uintptr(a.off)
+	return [][2]uintptr{{lo, lo + uintptr(a.n)}}
+}
+
+type FrameRest struct{ f *Frame }
+
+func (r FrameRest) rest() []byte {
+	cs := r.f.sorted()
+	var out []byte
+	at := 0
+	for _, c := range cs {
+		out = append(out, r.f.arr[at:c[0]]...)
+		at = c[1]
+	}
+	return append(out, r.f.arr[at:]...)
+}
+
+func (r FrameRest) Val() Val { return Val{S: enc(r.rest())} }
+
+// ExpectedPre: what the caller put there - sentinel bytes everywhere outside the inputs (the frame is
+// still being filled when the region is registered, so its content at that moment is not the reference).
+func (r FrameRest) ExpectedPre() Val {
+	n := len(r.f.arr)
+	for _, c := range r.f.carved {
+		n -= c[1] - c[0]
+	}
+	return Val{S: enc(bytes.Repeat([]byte{spareByte}, n))}
+}
+
+func (r FrameRest) Scribble(count int) bool {
+	cs := r.f.sorted()
+	at := 0
+	fill := func(b []byte) {
+		for i := range b {
+			b[i] = byte(count*29 + i + 3)
+		}
+	}
+	for _, c := range cs {
+		fill(r.f.arr[at:c[0]])
+		at = c[1]
+	}
+	fill(r.f.arr[at:])
+	return true
+}
+
+func (r FrameRest) Ranges() [][2]uintptr {
+	lo := uintptr(unsafe.Pointer(unsafe.SliceData(r.f.arr)))
+	cs := r.f.sorted()
+	var out [][2]uintptr
+	at := 0
+	for _, c := range cs {
+		if c[0] > at {
+			out = append(out, [2]uintptr{lo + uintptr(at), lo + uintptr(c[0])})
+		}
+		at = c[1]
+	}
+	return append(out, [2]uintptr{lo + uintptr(at), lo + uintptr(len(r.f.arr))})
 }
